@@ -159,3 +159,113 @@ func VerifC03HostConnect() {
 		verifapi.Assert(p.NumRemotes() == 1, "c03.host-registered")
 	}
 }
+
+// VerifC03Concurrent: two clients of one wallet send their billed keep-alives
+// at the same time, with a minimum configured. Each cut-off decision is taken
+// on the wallet's stored balance after that keep-alive's own charge - which
+// may or may not include the other one's - so over all interleavings: the
+// charges are both applied (no lost update), if both are admitted the wallet
+// ends at or above the minimum, if both are cut off it ends below it, and in
+// between exactly the serial outcomes are possible.
+func VerifC03Concurrent() {
+	db := newVerifStore()
+	min := verifapi.BigInt("min")
+	price := big.NewInt(100000000000)
+	p := VerifNewPool(db, db, price, 60000000000, min)
+	t0 := verifapi.Time("t0")
+	verifapi.SetNow(t0)
+	wal := store.Account(verifapi.Wallet(0))
+	host := store.NodeID(verifapi.NodeID(1))
+	db.SetNode(store.Node{ID: host, IsHost: true, Kind: "geth", LastSeen: t0, URI: "enode://h@192.0.2.1:30303"})
+	clients := []string{verifapi.NodeID(0), verifapi.NodeID(2)}
+	for _, c := range clients {
+		db.SetNode(store.Node{ID: store.NodeID(c), Kind: "geth", LastSeen: t0})
+		db.AddAccountNode(wal, store.NodeID(c))
+		db.UpdateNodePeers(store.NodeID(c), []string{string(host)}, 0)
+	}
+	credit := verifapi.BigInt("credit")
+	db.AddAccountBalance(wal, credit)
+	dt := verifapi.Dur("dt")
+	verifapi.Assume(dt > 60000000000 && dt < 100000000000)
+	verifapi.SetNow(t0.Add(dt))
+	db.UpdateNodePeers(host, nil, 0)
+	charge := new(big.Int).Div(new(big.Int).Mul(big.NewInt(int64(dt)), price), big.NewInt(60000000000))
+	done := make(chan error, 2)
+	for _, c := range clients {
+		go func(c string) {
+			_, err := VerifUpdate(p, context.Background(), c, string(host))
+			done <- err
+		}(c)
+	}
+	admitted, cutoff := 0, 0
+	for range clients {
+		err := <-done
+		if err == nil {
+			admitted++
+		} else if VerifIsLowBalance(err) {
+			cutoff++
+		} else {
+			verifapi.Unreachable("c03.concurrent.update-no-other-error")
+		}
+	}
+	verifapi.Reach("c03.concurrent")
+	final, _ := db.GetAccountBalance(wal)
+	want := new(big.Int).Sub(credit, new(big.Int).Mul(charge, big.NewInt(2)))
+	verifapi.Assert(final.Credit.Cmp(want) == 0, "c03.concurrent.both-charges-applied")
+	afterOne := new(big.Int).Sub(credit, charge)
+	if admitted == 2 {
+		verifapi.Assert(want.Cmp(min) >= 0, "c03.concurrent.both-admitted-only-at-or-above-min")
+	}
+	if cutoff == 2 {
+		verifapi.Assert(want.Cmp(min) < 0, "c03.concurrent.both-cut-off-only-below-min")
+	}
+	if afterOne.Cmp(min) < 0 {
+		verifapi.Assert(admitted == 0, "c03.concurrent.below-min-after-own-charge-is-cut-off")
+	}
+	if want.Cmp(min) >= 0 {
+		verifapi.Assert(cutoff == 0, "c03.concurrent.at-or-above-min-never-cut-off")
+	}
+}
+
+// VerifC03RoleRace: one node id connects twice at the same time, once as a
+// full-node host and once as a light client (a node that switched modes while
+// its old session is still sending), with a minimum configured: the host
+// request is never refused for its balance, and the client request is judged
+// on the balance alone - whatever the interleaving.
+func VerifC03RoleRace() {
+	db := newVerifStore()
+	min := verifapi.BigInt("min")
+	p := VerifNewPool(db, db, big.NewInt(100000000000), 60000000000, min)
+	t0 := verifapi.Time("t0")
+	verifapi.SetNow(t0)
+	id := verifapi.NodeID(0)
+	credit := verifapi.BigInt("credit")
+	if verifapi.Bool("known-node") {
+		db.SetNode(store.Node{ID: store.NodeID(id), LastSeen: t0, IsHost: verifapi.Bool("was-host")})
+		db.AddNodeBalance(store.NodeID(id), credit)
+	} else {
+		credit = new(big.Int)
+	}
+	hostConn := &VerifHost{Name: "full", Addr: "192.0.2.1:1"}
+	clientConn := &VerifHost{Name: "light", Addr: "192.0.2.2:1"}
+	var hostErr, clientErr error
+	done := make(chan int, 2)
+	go func() { _, hostErr = VerifConnect(p, hostConn, id, true, ""); done <- 1 }()
+	go func() { _, clientErr = VerifConnect(p, clientConn, id, false, ""); done <- 2 }()
+	<-done
+	<-done
+	verifapi.Reach("c03.rolerace")
+	verifapi.Assert(!VerifIsLowBalance(hostErr), "c03.host-never-refused-for-balance")
+	// (the two requests carry nonces of one identity: whichever is verified second may be refused
+	// for its nonce if it is the lower one - that is C05's subject, not a balance decision)
+	verifapi.Assert(hostErr == nil || VerifIsVerifyFailed(hostErr), "c03.rolerace.host-connect-no-other-error")
+	if VerifIsVerifyFailed(clientErr) {
+		return
+	}
+	if VerifIsLowBalance(clientErr) {
+		verifapi.Assert(credit.Cmp(min) < 0, "c03.client-at-or-above-min-accepted")
+	} else {
+		verifapi.Assert(clientErr == nil, "c03.rolerace.client-connect-no-other-error")
+		verifapi.Assert(credit.Cmp(min) >= 0, "c03.client-below-min-refused")
+	}
+}
